@@ -123,6 +123,12 @@ def replay(ctx: Ctx, states, origin):
                                 pass
                         if o.value is not before and o.value != before:
                             return bad(f"set_value|{op['kind']}|oob", f"a refused set_value changed the value to {o.value!r}", k)
+                        # ... and every value inside the domain is accepted (then put back)
+                        for vc in ("v2", "v1"):
+                            try:
+                                o.set_value(concrete(op["kind"], vc))
+                            except (TypeError, ValueError) as ex:
+                                return bad(f"set_value|{op['kind']}|valid_refused", f"set_value({concrete(op['kind'], vc)!r}) inside the declared domain was refused: {ex}", k)
             elif a == "SetValue":
                 o = objs[op["id"]]
                 kind = nodes[op["id"] - 1]["kind"]
